@@ -383,30 +383,98 @@ def isIdentChar (c : Nat) : Bool := isAlpha c || isDigit c || c == 95
 def isSpace (c : Nat) : Bool := c == 32 || c == 9 || c == 10 || c == 13
 def lower (c : Nat) : Nat := if 65 ≤ c && c ≤ 90 then c + 32 else c
 
+/-- the other keywords of lexer.rs, as byte lists (select, from, where, …) -/
+def reserved : List (List Nat) :=
+  [[115, 101, 108, 101, 99, 116]  /- select -/,
+   [102, 114, 111, 109]  /- from -/,
+   [119, 104, 101, 114, 101]  /- where -/,
+   [99, 97, 115, 101]  /- case -/,
+   [119, 104, 101, 110]  /- when -/,
+   [116, 104, 101, 110]  /- then -/,
+   [101, 108, 115, 101]  /- else -/,
+   [101, 110, 100]  /- end -/,
+   [111, 114, 100, 101, 114]  /- order -/,
+   [98, 121]  /- by -/,
+   [103, 114, 111, 117, 112]  /- group -/,
+   [104, 97, 118, 105, 110, 103]  /- having -/,
+   [97, 115, 99]  /- asc -/,
+   [100, 101, 115, 99]  /- desc -/,
+   [105, 110, 115, 101, 114, 116]  /- insert -/,
+   [105, 110, 116, 111]  /- into -/,
+   [118, 97, 108, 117, 101, 115]  /- values -/,
+   [117, 112, 100, 97, 116, 101]  /- update -/,
+   [115, 101, 116]  /- set -/,
+   [100, 101, 108, 101, 116, 101]  /- delete -/,
+   [99, 114, 101, 97, 116, 101]  /- create -/,
+   [116, 97, 98, 108, 101]  /- table -/,
+   [100, 114, 111, 112]  /- drop -/,
+   [108, 105, 109, 105, 116]  /- limit -/,
+   [111, 102, 102, 115, 101, 116]  /- offset -/,
+   [106, 111, 105, 110]  /- join -/,
+   [105, 110, 110, 101, 114]  /- inner -/,
+   [111, 117, 116, 101, 114]  /- outer -/,
+   [102, 117, 108, 108]  /- full -/,
+   [108, 101, 102, 116]  /- left -/,
+   [114, 105, 103, 104, 116]  /- right -/,
+   [99, 114, 111, 115, 115]  /- cross -/,
+   [101, 120, 105, 115, 116, 115]  /- exists -/,
+   [97, 110, 121]  /- any -/,
+   [97, 108, 108]  /- all -/,
+   [115, 111, 109, 101]  /- some -/,
+   [111, 110]  /- on -/,
+   [97, 115]  /- as -/,
+   [100, 105, 115, 116, 105, 110, 99, 116]  /- distinct -/,
+   [117, 110, 105, 111, 110]  /- union -/,
+   [105, 110, 116, 101, 114, 115, 101, 99, 116]  /- intersect -/,
+   [101, 120, 99, 101, 112, 116]  /- except -/,
+   [119, 105, 116, 104]  /- with -/,
+   [114, 101, 99, 117, 114, 115, 105, 118, 101]  /- recursive -/,
+   [112, 114, 105, 109, 97, 114, 121]  /- primary -/,
+   [107, 101, 121]  /- key -/,
+   [102, 111, 114, 101, 105, 103, 110]  /- foreign -/,
+   [114, 101, 102, 101, 114, 101, 110, 99, 101, 115]  /- references -/,
+   [117, 110, 105, 113, 117, 101]  /- unique -/,
+   [105, 110, 100, 101, 120]  /- index -/,
+   [118, 105, 101, 119]  /- view -/,
+   [112, 114, 111, 99, 101, 100, 117, 114, 101]  /- procedure -/,
+   [102, 117, 110, 99, 116, 105, 111, 110]  /- function -/,
+   [116, 114, 105, 103, 103, 101, 114]  /- trigger -/,
+   [100, 97, 116, 97, 98, 97, 115, 101]  /- database -/,
+   [115, 99, 104, 101, 109, 97]  /- schema -/,
+   [103, 114, 97, 110, 116]  /- grant -/,
+   [114, 101, 118, 111, 107, 101]  /- revoke -/,
+   [99, 111, 109, 109, 105, 116]  /- commit -/,
+   [114, 111, 108, 108, 98, 97, 99, 107]  /- rollback -/,
+   [116, 114, 97, 110, 115, 97, 99, 116, 105, 111, 110]  /- transaction -/,
+   [98, 101, 103, 105, 110]  /- begin -/,
+   [99, 111, 110, 115, 116, 114, 97, 105, 110, 116]  /- constraint -/,
+   [100, 101, 102, 97, 117, 108, 116]  /- default -/,
+   [99, 104, 101, 99, 107]  /- check -/,
+   [97, 108, 116, 101, 114]  /- alter -/,
+   [97, 100, 100]  /- add -/,
+   [99, 111, 108, 117, 109, 110]  /- column -/,
+   [109, 111, 100, 105, 102, 121]  /- modify -/,
+   [114, 101, 110, 97, 109, 101]  /- rename -/,
+   [116, 111]  /- to -/,
+   [108, 111, 99, 107]  /- lock -/,
+   [105, 102]  /- if -/]
+
+/-- keyword or identifier (keywords are case-insensitive); words are byte lists: true, false, null, and, or, not,
+    like, in, between, is -/
 def keyword (w : List Nat) : Tok :=
   let l := w.map lower
-  if l == "true".toList.map Char.toNat then .kTrue
-  else if l == "false".toList.map Char.toNat then .kFalse
-  else if l == "null".toList.map Char.toNat then .kNull
-  else if l == "and".toList.map Char.toNat then .kAnd
-  else if l == "or".toList.map Char.toNat then .kOr
-  else if l == "not".toList.map Char.toNat then .kNot
-  else if l == "like".toList.map Char.toNat then .kLike
-  else if l == "in".toList.map Char.toNat then .kIn
-  else if l == "between".toList.map Char.toNat then .kBetween
-  else if l == "is".toList.map Char.toNat then .kIs
+  if l == [116, 114, 117, 101] then .kTrue
+  else if l == [102, 97, 108, 115, 101] then .kFalse
+  else if l == [110, 117, 108, 108] then .kNull
+  else if l == [97, 110, 100] then .kAnd
+  else if l == [111, 114] then .kOr
+  else if l == [110, 111, 116] then .kNot
+  else if l == [108, 105, 107, 101] then .kLike
+  else if l == [105, 110] then .kIn
+  else if l == [98, 101, 116, 119, 101, 101, 110] then .kBetween
+  else if l == [105, 115] then .kIs
   else if reserved.contains l then .other l
   else .ident w
-where
-  /-- the other keywords of lexer.rs -/
-  reserved : List (List Nat) :=
-    ["select", "from", "where", "case", "when", "then", "else", "end", "order", "by", "group", "having", "asc",
-     "desc", "insert", "into", "values", "update", "set", "delete", "create", "table", "drop", "limit", "offset",
-     "join", "inner", "outer", "full", "left", "right", "cross", "exists", "any", "all", "some", "on", "as",
-     "distinct", "union", "intersect", "except", "with", "recursive", "primary", "key", "foreign", "references",
-     "unique", "index", "view", "procedure", "function", "trigger", "database", "schema", "grant", "revoke",
-     "commit", "rollback", "transaction", "begin", "constraint", "default", "check", "alter", "add", "column",
-     "modify", "rename", "to", "lock", "if"].map (fun s => s.toList.map Char.toNat)
 
 def takeWhileN (p : Nat → Bool) : List Nat → List Nat × List Nat
   | [] => ([], [])
@@ -463,5 +531,62 @@ def lex : Nat → List Nat → Option (List Tok)
       | _, _ => none
 
 def lexAll (cs : List Nat) : Option (List Tok) := lex (cs.length + 1) cs
+
+
+/-! ## rendering tokens as text (what the SQL printer of the harness writes) -/
+
+/-- decimal digits of a number, as ASCII codes -/
+def natDigits (n : Nat) : List Nat :=
+  if n < 10 then [48 + n] else natDigits (n / 10) ++ [48 + n % 10]
+
+/-- a string literal's body: quotes doubled -/
+def escapeQuotes : List Nat → List Nat
+  | [] => []
+  | c :: cs => if c = 39 then 39 :: 39 :: escapeQuotes cs else c :: escapeQuotes cs
+
+/-- the text of one token (keywords in upper case) -/
+def tokText : Tok → List Nat
+  | .num n => natDigits n
+  | .str s => 39 :: (escapeQuotes s ++ [39])
+  | .ident s => s
+  | .kTrue => [84, 82, 85, 69] | .kFalse => [70, 65, 76, 83, 69] | .kNull => [78, 85, 76, 76]
+  | .kAnd => [65, 78, 68] | .kOr => [79, 82] | .kNot => [78, 79, 84] | .kLike => [76, 73, 75, 69]
+  | .kIn => [73, 78] | .kBetween => [66, 69, 84, 87, 69, 69, 78] | .kIs => [73, 83]
+  | .lparen => [40] | .rparen => [41] | .comma => [44] | .dot => [46]
+  | .eq => [61] | .neq => [60, 62] | .lt => [60] | .gt => [62] | .le => [60, 61] | .ge => [62, 61]
+  | .plus => [43] | .minus => [45] | .star => [42] | .slash => [47] | .percent => [37] | .concat => [124, 124]
+  | .other s => s
+
+/-- tokens separated by single blanks -/
+def render : List Tok → List Nat
+  | [] => []
+  | [t] => tokText t
+  | t :: ts => tokText t ++ 32 :: render ts
+
+/-- tokens whose text the lexer reads back: identifiers start with a letter or `_`, continue with letters, digits,
+    `_`, and are not keywords; every other token of the expression grammar is fine -/
+def PrintableTok : Tok → Bool
+  | .ident s => (match s with
+      | [] => false
+      | c :: _ => (isAlpha c || c == 95) && s.all isIdentChar && keyword s == .ident s)
+  | .other _ => false
+  | _ => true
+
+
+mutual
+/-- every identifier of the expression is one the lexer reads back (see `PrintableTok`) -/
+def IdentsOk : PExpr → Bool
+  | .ident s => PrintableTok (.ident s)
+  | .qident t c => PrintableTok (.ident t) && PrintableTok (.ident c)
+  | .un _ e => IdentsOk e
+  | .bin _ l r => IdentsOk l && IdentsOk r
+  | .between _ e lo hi => IdentsOk e && IdentsOk lo && IdentsOk hi
+  | .inList _ e items => IdentsOk e && IdentsOkList items
+  | _ => true
+
+def IdentsOkList : List PExpr → Bool
+  | [] => true
+  | e :: es => IdentsOk e && IdentsOkList es
+end
 
 end AxVerif.Parser
